@@ -226,6 +226,26 @@ class Rx:
     def n_states(self) -> int:
         return len(self.dfa()[0])
 
+    def finite_words(self, cap: int = 64):
+        """The language as a set of strings when it is finite (at most `cap` words), else None."""
+        trans, accept = self.dfa()
+        out: set[str] = set()
+
+        def go(q, pref, onpath):
+            if len(out) > cap:
+                return False
+            if accept[q]:
+                out.add(pref)
+            for c, t in trans[q].items():
+                if t in onpath:
+                    # a cycle: infinite unless it cannot reach an accepting state; treat as infinite
+                    return False
+                if not go(t, pref + ALPHABET[c], onpath | {t}):
+                    return False
+            return True
+        ok = go(0, "", {0})
+        return out if ok and len(out) <= cap else None
+
     def is_empty(self) -> bool:
         return witness_not_in(self, None) is None
 
